@@ -27,7 +27,7 @@ def load_known():
 
 
 # rules that fold functions with unbounded domains on region representatives (DESIGN 11.2); VERIF_NO_VALUE_MAPS=1 switches them off
-VALUE_MAP_RULES = ("r_value_map", "r_date_arith", "r_timestamp_map", "r_rule_map", "r_replace_map", "r_resolution_map", "r_rounding_map", "r_resolve_year_map", "r_ts_visitors_map")
+VALUE_MAP_RULES = ("r_value_map", "r_date_arith", "r_timestamp_map", "r_rule_map", "r_replace_map", "r_resolution_map", "r_rounding_map", "r_resolve_year_map", "r_ts_visitors_map", "r_offset_shift_map", "r_offset_writer_map", "r_two_digit_writer_map")
 
 
 class Check:
